@@ -202,3 +202,26 @@ func neighbours(sp spelling) []spelling {
 	}
 	return out
 }
+
+// boundaryShiftCharts: chart URLs whose scheme+host CONCATENATION equals the
+// repository's although scheme and host both differ -- one character moved across
+// the scheme/host boundary: https://H -> http://sH, and http://sH' -> https://H'.
+// (A comparison of scheme+host without a separator cannot tell them apart.)
+func boundaryShiftCharts(repoURL string) []string {
+	u, err := url.Parse(repoURL)
+	if err != nil {
+		return nil
+	}
+	ui := ""
+	if u.User != nil {
+		ui = u.User.String() + "@"
+	}
+	var out []string
+	if u.Scheme == "https" {
+		out = append(out, "http://"+ui+"s"+u.Host+"/charts/x.tgz")
+	}
+	if u.Scheme == "http" && strings.HasPrefix(strings.ToLower(u.Host), "s") && len(u.Host) > 1 {
+		out = append(out, "https://"+ui+u.Host[1:]+"/charts/x.tgz")
+	}
+	return out
+}
